@@ -438,4 +438,9 @@ def main_wrap(fn):
         traceback.print_exc()
         sys.stdout.flush()
         os._exit(2)
-    sys.exit(rc)
+    # leave without running finalisers: netCDF4 objects of library files that
+    # are still referenced print "Exception ignored in Dataset.__dealloc__"
+    # noise after the verdict line otherwise
+    sys.stdout.flush()
+    sys.stderr.flush()
+    os._exit(rc if isinstance(rc, int) else 0)
